@@ -11,16 +11,17 @@ import os, re
 GEN = ['gen_unlimp.json', 'gen_limp1.json', 'gen_limp1t.json', 'gen_limp1f.json', 'gen_lim4.json', 'gen_limp.json', 'gen_open2n2w.json', 'gen_base.json', 'gen_policy.json', 'gen_limp4.json', 'gen_open2n2.json', 'gen_openn1.json', 'gen_open8.json']
 
 ITEMS = {'a': (4, 4, 0), 'b': (8, 4, 0), 'c': (8, 8, 0), 'd': (24, 8, 0), 'e': (40, 8, 0), 'f': (16, 16, 0), 'g': (1, 1, 0),
-         'h': (2, 2, 0), 'n': (8, 4, 1), 'm': (24, 8, 1), 'x': (8, 4, 2), 'y': (40, 8, 2)}
+         'h': (2, 2, 0), 'u': (4, 4, 0), 'z': (12, 4, 0), 't': (3, 1, 0), 'n': (8, 4, 1), 'm': (24, 8, 1), 'x': (8, 4, 2), 'y': (40, 8, 2)}
 
 CONFIGS = {
-    'harness1': ['S.L4.b.f', 'S.L4.b.q', 'S.L4.d.p', 'M.L4.a.p', 'S.L1.c.q', 'S.L2.a.p', 'S.L2.n.q', 'M.L3.x.q', 'S.L3.g.f', 'B.L4.b.q', 'T.L4.b.q'],
+    'harness1': ['S.L4.b.f', 'S.L4.b.q', 'S.L4.d.p', 'M.L4.a.p', 'S.L1.c.q', 'S.L2.a.p', 'S.L2.n.q'],
+    'harness5': ['M.L3.x.q', 'S.L3.g.f', 'B.L4.b.q', 'T.L4.b.q', 'S.L4.b.v', 'S.L4.u.n', 'S.L4.z.p'],
     'harness2': ['S.LP8.c.q', 'S.LP8.b.f', 'M.LP4.a.q', 'S.LP3.d.p', 'S.LQ4.b.q', 'S.LQ2.c.f', 'M.LQ1.a.q', 'S.LF.b.q', 'M.LF.n.p',
                  'S.UP.b.q', 'M.UP.d.f', 'S.ON.b.q', 'S.ON.c.f', 'M.ON.a.p'],
     'harness3': ['S.O3.b.f', 'S.O3.b.q', 'M.O3.d.p', 'S.O2.a.p', 'S.O2.n.q', 'S.O1.c.q', 'M.O1.x.p', 'S.N3.b.q', 'M.N3.a.f',
-                 'S.N1.c.q', 'S.N5.h.f'],
+                 'S.N1.c.q', 'S.N5.h.f', 'S.O3.b.v', 'M.O3.u.n', 'S.O3.t.q'],
     'harness4': ['S.O8.b.f', 'S.O8.b.q', 'M.O8.a.q', 'S.O8.e.q', 'S.O8.d.p', 'S.O8.f.f', 'M.O8.y.q', 'S.L4.e.q', 'S.L4.f.p',
-                 'S.L4.h.f', 'M.L4.m.q', 'S.L4.x.q', 'T.O8.b.q', 'B.O8.c.p'],
+                 'S.L4.h.f', 'M.L4.m.q', 'S.L4.x.q', 'T.O8.b.q', 'B.O8.c.p', 'S.O8.u.n'],
 }
 BIG = 2 ** 62
 
@@ -35,17 +36,21 @@ def params(name):
     else:                                   # MapKeyValuePair<Key, Value>: uint32_t / BigVal (24, align 4) / StrVal (32, align 8)
         vsz, val = {'M': (4, 4), 'B': (24, 4), 'T': (32, 8)}[cont]
         ial = max(AL, val); isz = ((SZ + val - 1) // val * val + vsz + ial - 1) // ial * ial
-    p = {'name': name, 'tagged': cont != 'S' or SZ >= 8, 'kmax': 2 ** (8 * min(4, SZ)), 'failinj': tr == 'q' and kind != 'ON',
+    p = {'name': name, 'tagged': cont != 'S' or SZ >= 8, 'kmax': 2 ** (8 * min(4, SZ)), 'failinj': tr in 'qv' and kind != 'ON',
+         'native': tr == 'n', 'isz': isz, 'ial': ial, 'cat': CAT, 'tr': tr, 'part': part,
          'map': cont != 'S', 'nomem': kind[0] in 'ON'}
     m = re.match(r'([A-Z]+)(\d*)$', kind); fam, N = m.group(1), int(m.group(2) or 0)
+    p['fam'] = fam; p['N'] = N
     if fam == 'L':
         part1 = part and isz >= 4
+        p['expect'] = 'LimP4<%d,%s>' % (N, 'part' if part1 else 'full')
         ita = ial if (not part1 or ial > 4) else 4
         minidx = 2 if (N > 1 and isz <= ita) else 1
         p.update(cap=N, wf0=int(minidx == N), thr=N, probing=1, bound=0, pol=0)
     elif fam == 'LP':
         useptr = (N <= 1) or (N <= 2 and isz % 2 == 0 and (isz > 2 or ial == 2)) or (N <= 4 and isz % 4 == 0 and (isz > 4 or ial == 4)) \
             or (N <= 8 and isz % 8 == 0 and (isz > 8 or ial == 8)) or (N <= 16 and isz % 16 == 0 and (isz > 16 or ial == 16))
+        p['expect'] = 'LimP<%d,%s>' % (N, 'ptrstate' if useptr else 'plain')
         thr = N
         if useptr:
             minia = 1 if N <= 1 else 2 if N <= 2 else 4 if N <= 4 else 8 if N <= 8 else 16
@@ -53,19 +58,26 @@ def params(name):
             if skipodd and N % 2 == 0: thr = N - 1
         p.update(cap=N, wf0=0, thr=thr, probing=0, bound=0, pol=0)
     elif fam == 'LQ':
+        p['expect'] = 'LimP1<%d>' % N
         skipfirst = N > 1 and ial == isz
         p.update(cap=N, wf0=int(N == 1 or (N == 2 and skipfirst)), thr=N, probing=0, bound=0, pol=0)
     elif fam == 'LF':
+        p['expect'] = 'Lim4<4>'
         p.update(cap=4, wf0=0, thr=4, probing=0, bound=0, pol=0)
     elif fam == 'UP':
+        p['expect'] = 'UnlimP'
         p.update(cap=BIG, wf0=0, thr=BIG, probing=0, bound=1, pol=0)
     elif fam == 'ON':
+        p['expect'] = 'One'
         p.update(cap=1, wf0=0, thr=1, probing=0, bound=0, pol=0)
     elif fam == 'O' and N != 8:
+        p['expect'] = 'Open2N2<%d,%s>' % (N, 'part' if part else 'full')
         p.update(cap=N, wf0=1, thr=N, probing=2, bound=2, pol=1)
     elif fam == 'N':
+        p['expect'] = 'OpenN1<%d>' % N
         p.update(cap=N, wf0=1, thr=N, probing=0, bound=N + 2, pol=2)
     elif fam == 'O' and N == 8:
+        p['expect'] = ('Open2N2<3,%s>' % ('part' if part else 'full')) if (part or isz > 32) else 'Open8'
         if part or isz > 32: p.update(cap=3, wf0=1, thr=3, probing=2, bound=2, pol=3)
         else: p.update(cap=7, wf0=1, thr=7, probing=3, bound=9, pol=3)
     else:
@@ -133,7 +145,8 @@ def gen_script(r, p, nops, style):
             elif y < 64: ops.append('M')
             elif y < 70: ops.append('S')
             elif y < 76: ops.append('G')
-            elif y < 84: ops.append('U')
+            elif y < 80: ops.append('U')
+            elif y < 84: ops.append('B %d' % r.below(2))
             else: ops.append('N')
         elif x < 945: ops.append('T')
         elif x < 960: ops.append('O')
@@ -162,6 +175,7 @@ def gen_cases(ctx, scale):
                 style = ['grow', 'churn', 'fail', 'shrink'][i % 4]
                 logstart = r.choice([lmin, lmin, lmin + 1, 2, 3, 4]); logstart = max(logstart, lmin)
                 hashmode = i % 6 if i < 12 else r.below(6)
+                if p['native']: logstart, hashmode = 4, 0        # the library's HashTraits: logStartBucketCount = 4, std::hash (identity)
                 nops = r.choice([30, 80, 150, 300]) if scale == 1 else r.choice([80, 300, 1000, 3000])
                 if p['cap'] == BIG and hashmode in (1, 3): nops = min(nops, 300)
                 cases.append(case_line(p, logstart, hashmode, gen_script(r, p, nops, style)))
@@ -209,7 +223,46 @@ def gen_cases(ctx, scale):
                                 ops += ['F %d' % k for k in ks] + ['N', 'T', 'H']
                                 ops += ['R %d' % k for k in ks if k != ks[slot]][:1] + ['F %d' % k for k in ks] + ['C 1']
                     out[tu].append(case_line(p, ls, hm, ' '.join(ops)))
+    # aimed (audit): fill the table to the LAST slot through the overload path (refused bucket-array allocation), so that
+    # 'Hash table is full' is really reached (Xz), then remove / find / insert again and let it grow normally
+    for tu, names in CONFIGS.items():
+        for name in names:
+            p = params(name)
+            if not p['nomem'] or p['native']: continue
+            for ls in (min_log_start(p), 3):
+                ls = max(ls, min_log_start(p))
+                for hm in (0, 1):
+                    slots = p['cap'] * 2 ** ls
+                    ks = list(range(1, slots + 4)); r.shuffle(ks)
+                    vv = (lambda k: k % 997) if p['tagged'] else (lambda k: 0)
+                    ops = ['Z %d %d' % (k, vv(k)) for k in ks] + ['N', 'T', 'H']
+                    ops += ['F %d' % k for k in ks[:12]] + ['R %d' % ks[0], 'Z %d %d' % (ks[-1], 0), 'N']
+                    ops += ['I %d %d' % (1000 + k, vv(k)) for k in range(1, 6)] + ['F %d' % k for k in ks[:12]] + ['N', 'T', 'O', 'H']
+                    out[tu].append(case_line(p, ls, hm, ' '.join(ops)))
+    # aimed (audit): growth across an 8-doubling band (log 8 -> 10 for shift 2, log 9 -> 10 for shift 1): the stored hash parts
+    # cannot be used for the relocation, the full hash getter must be; and at least two growths with existing buckets
+    for name in ('S.L4.d.p', 'S.L4.z.p', 'M.O3.d.p', 'S.O2.a.p', 'S.O8.d.p', 'S.L4.u.n', 'S.O8.u.n', 'M.O3.u.n'):
+        p = params(name); tu = [t for t, ns in CONFIGS.items() if name in ns][0]
+        n = calc_capacity(p, 9 if p['pol'] else 8) + 40
+        vv = (lambda k: k % 997) if p['tagged'] else (lambda k: 0)
+        ks = [3 * i + 1 for i in range(n)]
+        ops = ['I %d %d' % (k, vv(k)) for k in ks] + ['N', 'H'] + ['F %d' % k for k in ks[::37]] + ['R %d' % k for k in ks[::5]]
+        ops += ['F %d' % k for k in ks[::41]] + ['N', 'T']
+        out[tu].append(case_line(p, 4, 0, ' '.join(ops)))
     return out
+
+
+def reserve_cases(ctx):
+    """boundary values of Reserve's numeric argument: 0, capacity-1, capacity, capacity+1, and the unreachable capacities
+    2^62, 2^63, 2^63+1, SIZE_MAX (std::length_error expected; before /repo f76c2d4 the last two never returned)"""
+    cs = []
+    for name in ('S.L4.b.q', 'S.O3.b.q', 'S.ON.b.q', 'S.UP.b.q'):
+        p = params(name); ls = max(2, min_log_start(p)); c0 = calc_capacity(p, ls)
+        pre = ' '.join('I %d %d' % (k, k) for k in range(1, 4))
+        for n in (0, 1, c0 - 1, c0, c0 + 1, 2 ** 62, 2 ** 63, 2 ** 63 + 1, 2 ** 64 - 1):
+            cs.append(case_line(p, ls, 0, '%s V %d N F 2 V 0 I 9 9 N T H' % (pre, n)))
+        cs.append(case_line(p, ls, 0, 'V 0 N V %d N I 1 1 V %d N T H' % (2 ** 64 - 1, 2 ** 63 + 1)))
+    return cs
 
 
 def leaf_cases(ctx, scale):
@@ -334,6 +387,23 @@ def run(ctx):
     exes = build(ctx)
     if exes is None:
         return ctx.finish(rule=RULE)
+    # ---- configuration audit: what each harness configuration REALLY instantiates (bucket class, sizes, categories, crew)
+    audit_bad = []; audit = {}
+    for tu, names in CONFIGS.items():
+        path = os.path.join(ctx.build, 'info-%s.cases' % tu)
+        open(path, 'w').write('\n'.join('%s info 0 0 0 0 0 4 0 |' % n for n in names) + '\n')
+        rc, lines, err = ctx.run_lines([exes[tu]], path, timeout=60)
+        for n, l in zip(names, lines):
+            p = params(n); f = dict(x.split('=', 1) for x in l.split() if '=' in x); audit[n] = l
+            want = {'bucket': p['expect'], 'max': 'inf' if p['cap'] >= BIG else str(p['cap']), 'isz': str(p['isz']), 'ial': str(p['ial']),
+                    'version': '0' if p['tr'] == 'v' else '1', 'crewsize': '1' if p['tr'] == 'v' else '8',
+                    'fast': '1' if p['tr'] in 'fn' else '0', 'itemnr': '0' if p['cat'] == 2 else '1', 'trivreloc': '1' if p['cat'] == 0 else '0'}
+            for k, v in want.items():
+                if f.get(k) != v: audit_bad.append('%s: %s=%s, intended %s' % (n, k, f.get(k), v))
+        if rc != 0 or len(lines) != len(names): audit_bad.append('%s: info run failed' % tu)
+    ctx.stage('config-audit', not audit_bad, '; '.join(audit_bad[:6]))
+    ctx.tie_obligations.append({'name': 'every harness configuration instantiates the intended bucket class / item size / category / crew (%d configurations)' % len(audit), 'ok': not audit_bad})
+    ctx.coverage['configurations_instantiated'] = audit
     have_model = ctx.stages.get('prove', {}).get('ok') and ctx.extract()
     cases = gen_cases(ctx, scale)
     if any(not s['ok'] for s in ctx.stages.values()):
@@ -341,7 +411,9 @@ def run(ctx):
         more = gen_cases(ctx, 4)
         for tu in cases: cases[tu] += more[tu]
     leaves = leaf_cases(ctx, scale)
-    TMO = 240 if ctx.quick() else 2400      # a hanging container operation (e.g. an endless probe / iterator loop) is a failure too
+    global MEAS
+    MEAS = {}
+    TMO = int(os.environ.get('C01_TMO', '240' if ctx.quick() else '2400'))      # a hanging container operation (e.g. an endless probe / iterator loop) is a failure too
     hist = {}
     for tu, cs in cases.items():
         impl_lines = None
@@ -362,12 +434,38 @@ def run(ctx):
         for c in cs:
             for t in c.split('|', 1)[1].split():
                 if t.isalpha(): hist[t] = hist.get(t, 0) + 1
+        # measured (from the implementation's own outputs): growths, multi-generation states, overload exceptions, largest table
+        for c, o in zip(cs, lines if rc == 0 else []):
+            w = c.split(); m = MEAS.setdefault(w[0], {'scripts': 0, 'ops': 0, 'growth_events': 0, 'scripts_with_2_growths': 0, 'multi_generation_states': 0,
+                                                       'table_full_exceptions': 0, 'max_log': 0, 'hash_modes': {}, 'start_logs': {}})
+            m['scripts'] += 1; m['ops'] += sum(1 for t in c.split('|', 1)[1].split() if t.isalpha())
+            m['hash_modes'][w[8]] = m['hash_modes'].get(w[8], 0) + 1; m['start_logs'][w[7]] = m['start_logs'].get(w[7], 0) + 1
+            shapes = re.findall(r'((?:g\d+:\S*)(?: g\d+:\S*)*)', o)
+            logs_seq = []
+            for sh in shapes:
+                gl = [int(x) for x in re.findall(r'g(\d+):', sh)]
+                if len(gl) > 1: m['multi_generation_states'] += 1
+                logs_seq.append(gl[0]); m['max_log'] = max(m['max_log'], max(gl))
+            ups = sum(1 for a, b in zip(logs_seq, logs_seq[1:]) if b > a) + (1 if logs_seq and logs_seq[0] > int(w[7]) else 0)
+            m['growth_events'] += ups
+            if ups >= 2: m['scripts_with_2_growths'] += 1
+            m['table_full_exceptions'] += len(re.findall(r'(?:^| )Xz(?= |$)', o))
         ctx.add_sample(cs[0][:300])
     if have_model:
         mism, _ = ctx.correspond('leaves', leaves, [exes['harness3']], [ctx.model_exe])
         ctx.tie_obligations.append({'name': 'generated index + short-hash functions / hand-mirrored CalcCapacity == real functions on %d cases' % len(leaves), 'ok': not mism})
         for (i, c, a, b) in mism[:2]:
             ctx.violation('leaf function of the model and of the implementation disagree', {'case': c, 'tu': 'harness3', 'impl': a, 'model': b}, found_input=True)
+    if have_model:
+        rcs = reserve_cases(ctx)
+        by = {}
+        for c in rcs: by.setdefault([t for t, ns in CONFIGS.items() if c.split()[0] in ns][0], []).append(c)
+        for tu, cs in by.items():
+            mism, (rc1, e1, rc2, e2) = ctx.correspond('reserve-bounds-' + tu, cs, [exes[tu]], [ctx.model_exe], timeout=10 + 2 * len(cs))
+            ctx.tie_obligations.append({'name': 'Reserve boundary values (0, capacity+-1, 2^62, 2^63, 2^63+1, SIZE_MAX): model == real on %d cases (%s)' % (len(cs), tu), 'ok': not mism and rc1 == 0})
+            for (i, c, a, b) in mism[:1]:
+                ctx.violation('Reserve with a boundary capacity: the container hangs / disagrees with the model (expected std::length_error for unreachable capacities)',
+                              {'case': c, 'tu': tu, 'impl': a[:500], 'model': b[:500]}, found_input=True)
     if have_model:
         kc = kind_cases(ctx)
         mism, _ = ctx.correspond('kind-leaves', kc, [exes['harness2']], [ctx.model_exe])
@@ -390,7 +488,8 @@ def run(ctx):
         ctx.stage('oracle-open8-match', not bad8 and rc == 0, ('case %s: visited %s expected %s' % bad8[0]) if bad8 else '')
         for (c, o, exp) in bad8[:1]:
             ctx.violation('BucketOpen8::Find does not visit exactly the slots with an equal short-hash byte', {'case': c, 'tu': 'harness4', 'impl_output': o, 'expected': exp}, found_input=True)
-    ctx.coverage['input_distribution'] = {'scripts': sum(len(v) for v in cases.values()), 'configurations': sum(len(v) for v in CONFIGS.values()),
+    meas = ctx.coverage.setdefault('measured', {})
+    ctx.coverage['input_distribution'] = {'measured_per_configuration': MEAS, 'scripts': sum(len(v) for v in cases.values()), 'configurations': sum(len(v) for v in CONFIGS.values()),
                                           'op_histogram': hist, 'leaf_cases': len(leaves)}
     return ctx.finish(rule=RULE)
 
@@ -403,6 +502,7 @@ def first_diff(a, b):
     return None
 
 
+MEAS = {}
 RULE = ('scripts = aimed random op scripts (insert / add-at-position / find / remove by key, position, predicate / extract+reinsert / '
         'set value + ResetKey / Reserve / Clear / copy / move-assign / swap / MergeTo / extract into and insert from a holder / insert with refused allocation / failure-injected relocations; + aimed families: long constant-hash chains, stored-hash-part buckets removed slot by slot then grown) over 50 container '
         'configurations (17 bucket kinds x set/map x item size, alignment, category x hash-code-part getter) x 6 hash distributions x '
